@@ -24,7 +24,9 @@ package ast
 //@ axiom nf-andcode: forall c *AndCodeExpr :: {NF(c)} NF(c)
 //@ axiom nf-notcode: forall c *NotCodeExpr :: {NF(c)} NF(c)
 //@ axiom nf-lit: forall c *LitMatcher :: {NF(c)} NF(c) == (len(c.Val) == 0)
-//@ axiom nf-class: forall c *CharClassMatcher :: {NF(c)} NF(c) == (len(c.Chars) == 0 && len(c.Ranges) == 0 && len(c.UnicodeClasses) == 0)
+// a character class consumes exactly one rune or fails: it never matches the empty string (taken from the PEG
+// meaning of a class, not from the code, which called the empty classes [] and [^] nullable: defect F20)
+//@ axiom nf-class: forall c *CharClassMatcher :: {NF(c)} !NF(c)
 //@ axiom nf-any: forall c *AnyMatcher :: {NF(c)} !NF(c)
 
 // InFirst(e, n): rule n may be invoked at the start position of e -- directly, across nullable
